@@ -76,6 +76,48 @@ def tie_prefilter(ctx):
             ctx.ok(o, "%d strict comparison(s)" % len(cmps))
 
 
+def bisection_rules(ctx, rid="R3"):
+    """the two bisections over a tour: which time of a node they look at, when they stop, and which half they keep"""
+    from .. import optabs, shape
+    spec = {"latest_departure_before": ("start_time", "end_time", "Lt"), "earliest_arrival_after": ("end_time", "start_time", "Gt")}
+    for name, (want, other, _) in spec.items():
+        key = T(name)
+        o, fd = ctx.require_fn("%s.%s.compares-%s" % (rid, name, want.replace("_", "-")), "T12", key,
+                               "%s looks at the %s of the tour's nodes only" % (name, want))
+        if fd is None:
+            continue
+        direct = {(c.callee or "").split("::")[-1] for c in fd.body.calls()}
+        if other in direct:
+            ctx.bad(o, "%s compares a node's %s with the reference time: the position it returns is not the %s" % (
+                name, other, "last node departing before it" if want == "start_time" else "first node arriving after it"))
+        elif want in direct:
+            ctx.ok(o, "only %s is read" % want)
+        else:
+            ctx.undecided(o, "no node time is read directly")
+        o2 = ctx.ob("%s.%s.stops-on-a-single-node" % (rid, name), "T12+abs", key,
+                    "%s answers directly iff the interval holds one node (left + 1 == right) and recurses on a half otherwise" % name)
+        cmps = [i for i in fd.body.instrs() if i.kind == "assign" and i.rv_kind() == "binop" and i.rv["op"] in ("Eq", "Ne") and i.rv.get("aty", "").startswith("usize")
+                and all(any(a.startswith("param:") for a in fd.slice_operand_pure(i, op)["atoms"]) for op in i.ops)]      # not the compiler's `2 == 0` check
+        if len(cmps) != 1:
+            ctx.undecided(o2, "the interval test is not recognised")
+            continue
+        ins = cmps[0]
+        res = {}
+        for single in (True, False):
+            v = "T" if (single == (ins.rv["op"] == "Eq")) else "F"
+            it = optabs.OptInterp(fd.body, {ins.id: v})
+            it.run()
+            rec = [any(c == key for c in r["calls"]) for r in it.records]
+            res[single] = rec
+        if res[True] and res[False] and not any(res[True]) and all(res[False]):
+            ctx.ok(o2, "single node: no recursion; otherwise: recursion on every path")
+        elif res[True] and any(res[True]) or (res[False] and not all(res[False])):
+            ctx.bad(o2, "the single-node test at %s is inverted: with one node left the search recurses (for ever), with several it answers from "
+                        "the first one" % ins.line(), loc=ins.line())
+        else:
+            ctx.undecided(o2, "paths not decided")
+
+
 def hand_back(ctx):
     o, fd = ctx.require_fn("R1.insert_path-reports-what-it-cut", "T1", T("insert_path"),
                            "the path returned by insert_path is exactly what the splice removed from the node vector")
@@ -227,5 +269,6 @@ def rules(ctx):
     hand_back(ctx)
     refusals(ctx)
     tie_prefilter(ctx)
+    bisection_rules(ctx)
     from .C13 import tour_vanishes_rule
     tour_vanishes_rule(ctx, "R2")
